@@ -7,6 +7,8 @@ import DimodProofs.C03CopyCqm
 import DimodProofs.C03Multi
 import DimodProofs.C03Mixin
 import DimodProofs.C03PyFix
+import DimodProofs.C03Front
+import Properties.C05
 
 /-! # C03 — fixing a variable equals substituting its value everywhere
 
@@ -350,5 +352,75 @@ theorem pybqm_fix_many_after_history (vt : En.VT) (calls : List (En.VT × LBqm.V
   unfold LBqm.repEval LBqm.iterQuadratic
   rw [hnil]
   simp [LBqm.iterQuadratic.go]
+
+
+/-! ## round 7: the Python front of `fix_variables` (the argument as an object), `variables_` search = `indices_` lookup -/
+
+/-- **`fix_variables(fixed)` of a BQM / QM for every form of `fixed`** — a Mapping (`.items()`), a list / tuple of pairs, or a
+    one-shot iterable (zip, generator, `iter`, `map`): the front makes one pass, so the call is the model on the pairs the object
+    yields: for distinct labels of the model it succeeds, leaves exactly the other labels in order, is the simultaneous
+    substitution, and leaves a one-shot iterator exhausted (any other object untouched) -/
+theorem qm_fix_variables_any_form (m : QmL R) (hm : m.Ok) (arg : FixedArg R) (hfd : (arg.pairs.map (·.1)).Nodup)
+    (hall : ∀ p ∈ arg.pairs, p.1 ∈ m.labels) (val : Label → R) (hval : ∀ p ∈ arg.pairs, val p.1 = p.2) :
+    let r := m.fixVariablesFront arg
+    r.1.2 = true ∧ r.1.1.Ok ∧ r.1.1.labels.Sublist m.labels ∧ (∀ l, l ∈ r.1.1.labels ↔ l ∈ m.labels ∧ l ∉ arg.pairs.map (·.1)) ∧
+    r.1.1.qb.energy (valL val r.1.1.labels) = m.qb.energy (valL val m.labels) ∧ r.2 = arg.after [] := by
+  obtain ⟨h1, h2⟩ := QmL.fixVariablesFront_eq m arg
+  obtain ⟨a, b, c, d, e⟩ := QmL.fixVariables_spec m hm arg.pairs hfd hall val hval
+  simp only []
+  rw [h1]
+  exact ⟨a, b, c, d, e, h2 a⟩
+
+/-- the same for **`CQM.fix_variables(fixed, inplace=True)`** -/
+theorem cqm_fix_variables_inplace_any_form [DecidableEq R] (m : CqmL R) (hm : m.c.WF) (hnd : m.labels.Nodup) (arg : FixedArg R)
+    (hfd : (arg.pairs.map (·.1)).Nodup) (hall : ∀ p ∈ arg.pairs, p.1 ∈ m.labels) (val : Label → R)
+    (hval : ∀ p ∈ arg.pairs, val p.1 = p.2) :
+    let r := m.fixVariablesInplaceFront arg
+    r.1.2 = true ∧ r.1.1.c.WF ∧ r.1.1.labels.Nodup ∧ (∀ l, l ∈ r.1.1.labels ↔ l ∈ m.labels ∧ l ∉ arg.pairs.map (·.1)) ∧
+    r.1.1.clabels = m.clabels ∧ CqmC.Rel r.1.1.c m.c (valL val r.1.1.labels) (valL val m.labels) ∧ r.2 = arg.after [] := by
+  obtain ⟨h1, h2⟩ := CqmL.fixVariablesInplaceFront_eq m arg
+  obtain ⟨a, b, c, _, e, f, g⟩ := CqmL.fixVariablesInplace_spec m hm hnd arg.pairs hfd hall val hval
+  simp only []
+  rw [h1]
+  exact ⟨a, b, c, e, f, g, h2 a⟩
+
+/-- **`CQM.fix_variables(fixed, inplace=False)`**: the one pass that collects indices, values and the label set, then the C++
+    copy, is the copying model on the pairs the object yields (an unknown label is rejected in the pass) -/
+theorem cqm_fix_variables_copy_any_form [DecidableEq R] (m : CqmL R) (arg : FixedArg R) :
+    (m.fixVariablesCopyFront arg).1 = m.fixVariablesCopy arg.pairs :=
+  CqmL.fixVariablesCopyFront_eq m arg
+
+/-- a front that validates in a first pass over the same object (seeded change C03-5) fixes nothing when `fixed` is a one-shot
+    iterable: the second pass sees an exhausted iterator -/
+theorem fix_variables_two_pass_front_loses_iterator (m : QmL R) (ps : List (Label × R))
+    (hall : ∀ p ∈ ps, m.labels.contains p.1 = true) :
+    (m.fixVariablesFrontTwoPass (.iterator ps)).1 = (m, true) := by
+  have hchk : ∀ (ps : List (Label × R)), (∀ p ∈ ps, m.labels.contains p.1 = true) →
+      loopFront (fun (_ : Unit) v (_ : R) => if m.labels.contains v then some () else none) () ps = (((), true), []) := by
+    intro ps
+    induction ps with
+    | nil => intro _; rfl
+    | cons p t ih =>
+      intro h
+      simp only [loopFront, h p (by simp), if_true]
+      exact ih (fun q hq => h q (by simp [hq]))
+  unfold QmL.fixVariablesFrontTwoPass
+  simp only [FixedArg.pairs, hchk ps hall, if_true, FixedArg.after, QmL.fixVariablesFront, loopFront]
+
+/-- **The C03 expression models search `variables_`; the code looks up `indices_`.**  On every state a history of public CQM
+    operations reaches (C05: `indices_` is the inverse of `variables_`, `variables_` duplicate-free), for the objective and every
+    constraint the search returns exactly what `indices_.find` returns — so the C03 theorems speak about the code's lookups. -/
+theorem expr_search_is_indices_lookup_after_history (ops : List Cqm.Op) (hops : ∀ op ∈ ops, CqmP.OpOK op) (qb : QMB R) (g : Nat) :
+    ({ vars := (({} : Cqm).run ops).obj.vars, qb := qb } : En.Expr R).localOf? g = (({} : Cqm).run ops).obj.idx.get? g ∧
+    ∀ c ∈ (({} : Cqm).run ops).cons, ({ vars := c.e.vars, qb := qb } : En.Expr R).localOf? g = c.e.idx.get? g := by
+  have hwf := C05.history_inv ops hops
+  exact ⟨localOf?_eq_indices _ _ hwf.obj.nodup hwf.obj.idx qb g,
+         fun c hc => localOf?_eq_indices _ _ (hwf.cons c hc).nodup (hwf.cons c hc).idx qb g⟩
+
+/-- a generator of two pairs on a two-variable model: both fixed, the generator is exhausted afterwards -/
+example : let m : QmL Rat := { qb := { lin := [1, 2], adj := none, off := 0 },
+                               info := [⟨.integer, 0, 9⟩, ⟨.integer, 0, 9⟩], labels := [.int 0, .int 1] }
+    let r := m.fixVariablesFront (.iterator [(.int 1, 3), (.int 0, 5)])
+    (r.1.1.qb.off, r.1.2, r.1.1.labels, r.2.pairs) = (11, true, [], []) := by decide +kernel
 
 end C03
